@@ -26,6 +26,7 @@ def stmt(act):
     if a == "FieldAssign": return f"{n}.x = 9"
     if a == "TupleElemAssign": return f"{n}.1 = 9"
     if a == "Destructure": return f"({n}, {m}) := (7, 8)"
+    if a == "DestructureTooMany": return f"({n}, {m}, zz9) := (7, 8)"
     if a == "DestructureVar": return f"({n}, {m}) := {act['k']}"
     if a == "Eval": return f"{n}"
     raise ValueError(act)
